@@ -187,3 +187,31 @@ Proof.
       apply (T _ H). unfold scal; simpl. unfold mult; simpl. field.
   - exists 2. exact G.
 Qed.
+
+(* ---- a SWEEP on a countable state space (CWMH on a lattice of any dimension: one MH kernel per coordinate, each with a proposal that
+        moves one coordinate): propagating the law through any sequence of kernels that each leave pi invariant gives pi again.  Stated
+        for the law (push-forward), which needs no composed kernel and hence no interchange of double series. ---------------------- *)
+Definition pushK (K : nat -> nat -> R) (mu : nat -> R) (y : nat) : R := Series (fun x => mu x * K x y).
+Definition inv_series (pi : nat -> R) (K : nat -> nat -> R) : Prop := forall y, is_series (fun x => pi x * K x y) (pi y).
+
+Theorem sweep_invariant_countable (pi : nat -> R) (Ks : list (nat -> nat -> R)) :
+  List.Forall (inv_series pi) Ks ->
+  forall mu, (forall x, mu x = pi x) -> forall y, List.fold_left (fun m K => pushK K m) Ks mu y = pi y.
+Proof.
+  induction Ks as [|K r IH]; intros HF mu Hmu y; [apply Hmu|].
+  inversion HF as [|? ? HK Hr]; subst. cbn [List.fold_left]. apply IH; [exact Hr|].
+  intro z. unfold pushK. rewrite (Series_ext _ (fun x => pi x * K x z)) by (intro x; rewrite Hmu; reflexivity).
+  apply is_series_unique. apply HK.
+Qed.
+
+(* the MH kernels of any list of proposals (one per coordinate) *)
+Corollary mh_sweep_invariant_countable (pi : nat -> R) (qs : list (nat -> nat -> R)) :
+  (forall x, 0 <= pi x) ->
+  List.Forall (fun q => (forall x y, 0 <= q x y) /\ (forall x, is_series (q x) 1)) qs ->
+  forall y, List.fold_left (fun m K => pushK K m) (List.map (KR pi) qs) pi y = pi y.
+Proof.
+  intros Hp HF y. apply sweep_invariant_countable; [|reflexivity].
+  induction qs as [|q r IH]; [constructor|]. inversion HF as [|? ? [Hq Hs] Hr]; subst. cbn [List.map]. constructor.
+  - intro z. apply KR_invariant; assumption.
+  - apply IH. exact Hr.
+Qed.
